@@ -3,6 +3,7 @@
 From Coq Require Import SpecFloat.
 Require Import Base Value Float PrintOptions Printer ParseOptions Utf8 Reader Scan Num NumberOps Parser.
 Require Import RelFramework IoProofs RoundtripProofs TextProofs SimFramework InterruptProofs CrossProofs SourcesAgree StrSliceProofs Utf8StrProofs ValidTextProofs.
+Require IoFailProofs.
 Require Import Lexpr.Props.C06.
 Local Open Scope nat_scope.
 
@@ -175,3 +176,13 @@ Check (C06_io_error_or_determined_nonvacuous :
   (exists l c, run (bytes_events (s2b "(a #z ") ++ [EFail 8%N]) = PErr (XErr (ESyntax ExpectedSomeIdent l c)) /\
                run (bytes_events (s2b "(a #z ") ++ bytes_events (s2b "b)")) = PErr (XErr (ESyntax ExpectedSomeIdent l c)) /\
                run (bytes_events (s2b "(a #z ")) = PErr (XErr (ESyntax ExpectedSomeIdent l c)))).
+
+Check (C06_io_error_or_determined_every_call :
+  forall e post cont ro alpha fast std_parse fuel s1 s2,
+  IoFailProofs.sprel e post cont s1 s2 ->
+  IoFailProofs.pesc e (fst (next_value ro alpha fast std_parse fuel s2)) \/
+  fst (next_value ro alpha fast std_parse fuel s1) = PErr (XErr EFuel) \/
+  (fst (next_value ro alpha fast std_parse fuel s1) = fst (next_value ro alpha fast std_parse fuel s2) /\
+   depth (snd (next_value ro alpha fast std_parse fuel s1)) = depth (snd (next_value ro alpha fast std_parse fuel s2)) /\
+   (IoFailProofs.is_pok (fst (next_value ro alpha fast std_parse fuel s2)) ->
+    IoFailProofs.srel e post cont (rd (snd (next_value ro alpha fast std_parse fuel s1))) (rd (snd (next_value ro alpha fast std_parse fuel s2)))))).
